@@ -52,7 +52,7 @@ def gen_param(rng, safe):
   if k < 0.8: return {"kind": "tuple", "v": [gen_param(rng, safe) for _ in range(rng.randrange(1, 4))]}
   if k < 0.85: return {"kind": "list", "v": [{"kind": "int", "v": rng.randrange(100)} for _ in range(rng.randrange(1, 12))]}
   if k < 0.9: return {"kind": "struct_type", "name": "PT%d" % rng.randrange(3), "fields": [["a", rng.choice([3, 4])], ["b", 8]]}
-  if k < 0.95: return {"kind": "bits_value", "n": 8, "v": rng.randrange(256)}
+  if k < 0.95: return {"kind": "bits_value", "n": rng.choice([5, 8, 8]), "v": rng.choice([0, 1, 3, 3, rng.randrange(32)])}
   if safe: return {"kind": "float", "v": rng.choice([0.5, 1.0, 2.25])}
   return {"kind": "int", "v": -rng.randrange(1, 9)}
 
@@ -90,12 +90,29 @@ def gen_param_design(rng, odd=False):
         elif pos == 5: v[5] = (base[5] + rng.randrange(1, 4)) % 4; v[4] = base[4] | 1     # other `inc`, passed explicitly
         else:
           nv = gen_param(rng, True)
+          b_ = base[pos]
+          # values whose str() coincides although they differ: same digits at another width, Bits value vs int
+          if b_.get("kind") == "bits_value" and rng.random() < 0.7: nv = dict(b_, n=5 if b_["n"] == 8 else 8)
+          elif b_.get("kind") == "int" and 10 <= b_["v"] < 100 and rng.random() < 0.5: nv = {"kind": "bits_value", "n": 8, "v": int(str(b_["v"]), 16)}
           if nv == base[pos]: continue
           v[pos] = nv
+          if pos == 2: v[4] = v[4] | 2
+          if pos == 3: v[4] = v[4] | 4
         g.append(v)
     if groups and rng.random() < 0.4:
       g = list(groups[-1])          # repeated sub-tree
     groups.append(g)
+  if not odd and groups and rng.random() < 0.6:
+    # a pair of instances whose differing parameter values print alike: Bits values of two widths / a Bits value and an int
+    v = rng.choice([0, 1, 3, 7])
+    a, b = ({"kind": "bits_value", "n": 8, "v": v}, {"kind": "bits_value", "n": 5, "v": v}) if rng.random() < 0.6 else \
+           ({"kind": "int", "v": 13}, {"kind": "bits_value", "n": 8, "v": 0x13})
+    kv = {"kind": "int", "v": rng.randrange(0, 8)}
+    pos = rng.choice([2, 3])
+    base = [rng.randrange(2), kv, {"kind": "none"}, {"kind": "int", "v": 0}, 2 if pos == 2 else 4, 1, {}]
+    for val in (a, b):
+      c = list(base); c[pos] = val
+      groups[rng.randrange(len(groups))].append(c)
   return {"type": "param", "T": T, "groups": groups, "backends": ["sv", "ys"]}
 
 
@@ -229,6 +246,7 @@ def run_shard(sh):
   outs = run_workers(sh, items, sh.params["procs"], "clean")
   if len(outs) < 2:
     sh.inconclusive("fewer-than-2-worker-results"); return
+  name_params = {}
   # 1. byte equality across processes
   for i, item in enumerate(items):
     for be in item["backends"]:
@@ -272,6 +290,16 @@ def run_shard(sh):
           sh.count("parameterisations", sum(len(g) for g in item["groups"]))
         sh.count("evaluations")
       if item["type"] == "leaf" and be == "sv":
+        # injectivity: one module name, one set of (effective) parameter values
+        c_ = item["cfg"]; ov_ = c_[6] if len(c_) > 6 else {}
+        eff = json.dumps([c_[0], item["T"], c_[1], ov_.get("inc", c_[5] if c_[4] & 1 else 1), c_[2] if c_[4] & 2 else {"kind": "none"},
+                          {"kind": "int", "v": ov_["opt"]} if "opt" in ov_ else (c_[3] if c_[4] & 4 else {"kind": "int", "v": 0})], sort_keys=True)
+        if not any(x.get("kind") in ("func", "object") for x in (c_[2], c_[3]) if isinstance(x, dict)):
+          prev = name_params.setdefault(v["top_module"], eff)
+          sh.count("module_name_injectivity_checks")
+          if prev != eff:
+            sh.violation("instances-with-different-parameter-values-share-one-module-name", {"module": v["top_module"], "parameters_a": json.loads(prev),
+                         "parameters_b": json.loads(eff)}, case=("item", i))
         exp = expected_full_name(item)
         if exp is not None:
           sh.count("full_names_checked")
